@@ -1,11 +1,15 @@
 """C14 — id allocator / deposit box: live ids unique, one taker wins, stale ids never match.
 
-proof:          lean/Babylon/Properties/C14.lean over the atomic-granularity model Babylon/IdAlloc/Model.lean
+proof:          lean/Babylon/Properties/C14.lean over the atomic-granularity models Babylon/IdAlloc/Model.lean
+                (IdAllocator) and Babylon/IdAlloc/Box.lean (DepositBox on top of the allocator model)
 translator:     gen/idalloc.py (sentinels, version bumps, atomic skeletons with memory orders)
 correspondence: E-CONC — harness/c14.cpp runs the real IdAllocator<uint16_t|uint32_t>, DepositBox and
                 ThreadId under VRT (deterministic schedules, spurious weak-CAS failures); every
-                atomic-level trace is replayed in lock-step by lean/Drivers/C14.lean; the harness
-                evaluates the ownership / single-taker / stale-id / for_each / reuse oracles itself.
+                atomic-level trace of the allocator modes (stepThread) AND of the deposit-box mode (bstep /
+                callEmplace / callTake / callFinish: allocator head/next/nv words + the version word of
+                every slot + call/ret events with ids and items) is replayed in lock-step by
+                lean/Drivers/C14.lean; the harness evaluates the ownership / single-taker / stale-id /
+                wrong-item / for_each / reuse oracles itself.  ThreadId runs are oracle only.
 """
 from vlib.core import *
 
@@ -41,7 +45,7 @@ def run(ctx):
     distinct = set()
     samples = []
     plan = [("alloc32", n, True, {}), ("alloc16", n, True, {}), ("alloc32", n // 2, True, {"VRT_STRATEGY": "pct"}),
-            ("box", n // 2, False, {}), ("threadid", n // 4, False, {})]
+            ("box", n // 2, True, {}), ("box", n // 4, True, {"VRT_STRATEGY": "pct"}), ("threadid", n // 4, False, {})]
     for mode, cnt, lockstep, env in plan:
         runs = ctx.econc(exe, drv if lockstep else None, [mode], seed0, cnt, env=env)
         dist["modes"][mode + ("/pct" if env else "")] = len(runs)
@@ -49,8 +53,11 @@ def run(ctx):
             dist["verdicts"][r["verdict"]] = dist["verdicts"].get(r["verdict"], 0) + 1
             dist["max_trace"] = max(dist["max_trace"], len(r["lines"]))
             ncasfail = sum(1 for l in r["lines"] if " casw " in l and l.split()[-2] == "0")
+            # deposit box: a taker that lost (failed strong CAS on a slot's version word: raced or stale id)
+            ntakefail = sum(1 for l in r["lines"] if " cas ver" in l and l.split()[-2] == "0")
             dist["cas_fail_lines"] += ncasfail
-            if ncasfail > 0 or mode in ("box", "threadid"):
+            dist["take_fail_lines"] = dist.get("take_fail_lines", 0) + ntakefail
+            if ncasfail > 0 or ntakefail > 0 or mode == "threadid":
                 distinct.add(sha("\n".join(l for l in r["lines"] if " ev stats" not in l)))
             text = "mode=%s seed=%d env=%s\n%s" % (mode, r["seed"], env, "\n".join(r["lines"][-400:]))
             if r["oracle"]:
@@ -72,10 +79,12 @@ def run(ctx):
     ctx.cov["distribution"] = dist
     ctx.cov["distinct_nontrivial"] = len(distinct)
     ctx.cov["traces_validated_against_impl"] = dist["replay_ok"]
-    ctx.cov["rule"] = ("one case = one seeded program (sequential prefix, then 2-4 threads x 2-8 allocate/deallocate calls; deposit box: 1-4 rounds of "
-                       "emplace + 2-4 racing takers + stale ids; thread ids: 2-4 waves of 1-4 threads) under one seeded schedule (random with 5 stickiness "
+    ctx.cov["rule"] = ("one case = one seeded program (sequential prefix, then 2-4 threads x 2-8 allocate/deallocate calls; deposit box: fresh box, sequential "
+                       "prefix of 0-4 emplace/take/finish rounds, then 2-4 threads x 3-8 operations among emplace, take of a published id (newest untaken id so "
+                       "that takers race, already-taken ids, stale ids whose slot was reused) and finish, replayed in lock-step against the box model; thread ids: 2-4 waves of 1-4 threads) under one seeded schedule (random with 5 stickiness "
                        "levels, or PCT) with spurious weak-CAS failures 1/8; non-trivial = the trace contains at least one failed CAS on the free-list head "
-                       "(threads actually interfered) or is a box/threadid run; distinct by trace hash")
+                       "(threads actually interfered) or, for box runs, also a failed strong CAS on a slot version word (a taker lost), or is a threadid run; "
+                       "distinct by trace hash")
     ctx.cov["samples"] = samples or [["<no sample>"]]
 
 
@@ -85,7 +94,7 @@ def replay(ctx, path):
     mode, seed, env = m.group(1), int(m.group(2)), eval(m.group(3))
     exe, log = build_vrt_exe("c14", SRCS, repo_cpp=REPO_CPP)
     drv = ctx.driver("drv_C14")
-    runs = ctx.econc(exe, drv if mode.startswith("alloc") else None, [mode], seed, 1, env=env)
+    runs = ctx.econc(exe, drv if (mode.startswith("alloc") or mode == "box") else None, [mode], seed, 1, env=env)
     r = runs[0]
     print("\n".join(r["lines"]))
     print("verdict:", r["verdict"], "replay:", r["replay"], "oracle:", r["oracle"])
@@ -94,6 +103,6 @@ def replay(ctx, path):
 
 MANIFEST = {
     "technique": "Lean 4 proof (invariant over all interleavings of an atomic-granularity transition system) + translator-generated skeleton/order obligations + lock-step replay of real executions under a deterministic scheduler",
-    "text": "Theorems in lean/Babylon/Properties/C14.lean hold for every interleaving, thread count and call history of the model; each model step is one atomic operation of the real code, and every trace of the real IdAllocator produced under VRT is checked to be a path of the model (same operation, location, memory order, values)",
+    "text": "Theorems in lean/Babylon/Properties/C14.lean hold for every interleaving, thread count and call history of the model; each model step is one atomic operation of the real code, and every trace of the real IdAllocator and of the real DepositBox produced under VRT is checked to be a path of the model (same operation, location, memory order, values)",
     "note": "Trusted: Lean kernel + 3 standard axioms; gen/idalloc.py; vrt/ (scheduler, TSan-ABI build); SC interleavings only (orders tied statically); NoWrap hypothesis on the truncated version",
 }
